@@ -260,11 +260,11 @@ PROPS = {
     },
     "C09": {
         "module": "HctlProofs.Props.C09",
-        "extra_modules": ["HctlProofs.Lemmas.KeyProof"],
+        "extra_modules": ["HctlProofs.Lemmas.MarkDups"],
         "theorems": ["Hctl.C09.renaming_injective", "Hctl.C09.renaming_names", "Hctl.C09.renaming_total",
                      "Hctl.C09.canonName_injective", "Hctl.C09.dupIncr_keys", "Hctl.canonChars_render", "Hctl.canon_eq_of_key_eq",
                      "Hctl.canonTreeAux_shape", "Hctl.eq_mapVars_of_canon_eq", "Hctl.canonTreeAux_mapKeys", "Hctl.sat_renameVar",
-                     "Hctl.keySem_holds", "Hctl.keyWild_holds"],
+                     "Hctl.keySem_holds", "Hctl.keyWild_holds", "Hctl.single_name_transfer", "Hctl.dups_le_one", "Hctl.markDups_witness"],
         "ks": ["k5", "k6"],
         "spec_tied": [],
         "full": False,
@@ -286,11 +286,12 @@ PROPS = {
         "theorems": ["Hctl.C04.cache_transparent", "Hctl.C04.cached_eq_pure", "Hctl.C04.batch_sound", "Hctl.C04.batch_results_agree",
                      "Hctl.C04.init_cacheOK_plain", "Hctl.C04.init_cacheOK_noSharing", "Hctl.evalNode_sound",
                      "Hctl.lookup_spec", "Hctl.store_ok", "Hctl.C04.init_cacheOK_ext", "Hctl.C04.extended_batch_sound",
-                     "Hctl.keySem_holds", "Hctl.keyWild_holds"],
+                     "Hctl.keySem_holds", "Hctl.keyWild_holds", "Hctl.single_name_transfer", "Hctl.dups_le_one",
+                     "Hctl.markDups_witness", "Hctl.C04.treesDirty_sound", "Hctl.C04.extendedDirty_sound"],
         "ks": ["o04", "k7"],
         "spec_tied": ["o04:pure_", "k7:pure_"],
         "full": False,
-        "not_proved": 'the two key facts the cache theorem needs are now DERIVED from the canoniser model (keySem_holds: equal keys => equal canonical trees => the cached set renamed back denotes the other sub-formula; keyWild_holds), via canonChars_render (character-level canoniser = tree-level canonical form), render_injective and sat_renameVar. Remaining hypotheses (definitions, not axioms): CharsOK (facts about Rust character classes, checked against std by K1), CtxSC (context sets do not depend on the variable slots), the top-level unit does not constrain the variable slots, GraphAsync (a transition changes the state), and for the initial context: every key in the duplicate map has at most one variable for every legitimate tree carrying it (not yet derived from the markDups model; exercised by K6 and the batch oracles)' + "; the initial context with wild-cards pre-loaded (extend_context_with_wild_cards) is now proved to satisfy "
+        "not_proved": 'the two key facts the cache theorem needs are now DERIVED from the canoniser model (keySem_holds: equal keys => equal canonical trees => the cached set renamed back denotes the other sub-formula; keyWild_holds), via canonChars_render (character-level canoniser = tree-level canonical form), render_injective and sat_renameVar. Remaining hypotheses (definitions, not axioms): CharsOK (facts about Rust character classes, checked against std by K1), CtxSC (context sets do not depend on the variable slots), the top-level unit does not constrain the variable slots, GraphAsync (a transition changes the state). The former hypothesis "keys of the duplicate map have at most one variable" is now a theorem too: mark_duplicates only inserts keys of depth-named, well-scoped sub-formulae with at most one variable (markDups_witness), and "at most one variable" is a property of the KEY (dups_le_one, via single_name_transfer); treesDirty_sound / extendedDirty_sound / no_panic_treesDirty are end-to-end statements with the real duplicate map' + "; the initial context with wild-cards pre-loaded (extend_context_with_wild_cards) is now proved to satisfy "
                       "the invariant (init_cacheOK_ext, extended_batch_sound); the progress callback is not "
                       "an input of the model (it only receives references in Rust) — checked by the oracle",
         "rule": "O04: batches of 2-4 extended formulae with planted overlaps (sub-formulae shared up to renaming, closed under fresh "
@@ -301,11 +302,11 @@ PROPS = {
     "C14": {
         "module": "HctlProofs.Props.C14",
         "theorems": ["Hctl.C14.no_panic_trees", "Hctl.C14.preprocessed_goodQ", "Hctl.C14.error_iff_plain",
-                     "Hctl.C14.renameRec_plain", "Hctl.C07.rename_ok_iff"],
+                     "Hctl.C14.renameRec_plain", "Hctl.C07.rename_ok_iff", "Hctl.C14.no_panic_treesDirty"],
         "ks": ["o14", "k7"],
         "spec_tied": ["o14:pure_", "k7:pure_"],
         "full": False,
-        "not_proved": 'the two key facts the cache theorem needs are now DERIVED from the canoniser model (keySem_holds: equal keys => equal canonical trees => the cached set renamed back denotes the other sub-formula; keyWild_holds), via canonChars_render (character-level canoniser = tree-level canonical form), render_injective and sat_renameVar. Remaining hypotheses (definitions, not axioms): CharsOK (facts about Rust character classes, checked against std by K1), CtxSC (context sets do not depend on the variable slots), the top-level unit does not constrain the variable slots, GraphAsync (a transition changes the state), and for the initial context: every key in the duplicate map has at most one variable for every legitimate tree carrying it (not yet derived from the markDups model; exercised by K6 and the batch oracles)' + "; stated for plain formulae (the extended case adds the clause 'missing context label' "
+        "not_proved": 'the two key facts the cache theorem needs are now DERIVED from the canoniser model (keySem_holds: equal keys => equal canonical trees => the cached set renamed back denotes the other sub-formula; keyWild_holds), via canonChars_render (character-level canoniser = tree-level canonical form), render_injective and sat_renameVar. Remaining hypotheses (definitions, not axioms): CharsOK (facts about Rust character classes, checked against std by K1), CtxSC (context sets do not depend on the variable slots), the top-level unit does not constrain the variable slots, GraphAsync (a transition changes the state). The former hypothesis "keys of the duplicate map have at most one variable" is now a theorem too: mark_duplicates only inserts keys of depth-named, well-scoped sub-formulae with at most one variable (markDups_witness), and "at most one variable" is a property of the KEY (dups_le_one, via single_name_transfer); treesDirty_sound / extendedDirty_sound / no_panic_treesDirty are end-to-end statements with the real duplicate map' + "; stated for plain formulae (the extended case adds the clause 'missing context label' "
                       "which the model checks in parseAll and the correspondence compares); panics inside the BDD / graph libraries "
                       "and stack exhaustion on unbounded nesting are outside the model",
         "rule": "O14: every string entry point (plain/extended, raw/sanitised, unsafe_ex) under catch_unwind on random, "
